@@ -59,6 +59,9 @@ type ShipConnection struct {
 
 	shutdownOnce sync.Once
 
+	// set once CloseConnection has started; SHIP input and user decisions are ignored afterwards
+	isShutdown bool
+
 	// buffer for SPINE messages that came in before the handshake was completed
 	spineBuffer [][]byte
 
@@ -116,7 +119,7 @@ func (c *ShipConnection) ShipHandshakeState() (model.ShipMessageExchangeState, e
 // invoked when pairing for a pending request is approved
 func (c *ShipConnection) ApprovePendingHandshake() {
 	state := c.getState()
-	if state != model.SmeHelloStatePendingListen {
+	if state != model.SmeHelloStatePendingListen || c.hasShutdown() {
 		// TODO: what to do if the state is different?
 
 		return
@@ -140,7 +143,7 @@ func (c *ShipConnection) ApprovePendingHandshake() {
 // invoked when pairing for a pending request is denied
 func (c *ShipConnection) AbortPendingHandshake() {
 	state := c.getState()
-	if state != model.SmeHelloStatePendingListen && state != model.SmeHelloStateReadyListen {
+	if (state != model.SmeHelloStatePendingListen && state != model.SmeHelloStateReadyListen) || c.hasShutdown() {
 		// TODO: what to do if the state is differnet?
 
 		return
@@ -152,9 +155,21 @@ func (c *ShipConnection) AbortPendingHandshake() {
 	c.setAndHandleState(model.SmeHelloStateAbort)
 }
 
+// returns if CloseConnection was invoked
+func (c *ShipConnection) hasShutdown() bool {
+	c.mux.Lock()
+	defer c.mux.Unlock()
+
+	return c.isShutdown
+}
+
 // close this ship connection
 func (c *ShipConnection) CloseConnection(safe bool, code int, reason string) {
 	c.shutdownOnce.Do(func() {
+		c.mux.Lock()
+		c.isShutdown = true
+		c.mux.Unlock()
+
 		c.stopHandshakeTimer()
 
 		// handshake is completed if approved or aborted
